@@ -828,6 +828,15 @@ Proof.
       eexists. reflexivity.
 Qed.
 
+Lemma existsb_eprim_of_primary primary keys es pk :
+  Forall2 (entry_of primary) keys es -> In (Some pk) keys -> k_id pk = primary -> existsb eprim es = true.
+Proof.
+  induction 1 as [|k e keys es [pk' [-> [_ [_ [Pe _]]]]] _ IH']; intros Hin Hid; [destruct Hin|].
+  simpl. destruct Hin as [E|Hin].
+  - inversion E; subst pk'. rewrite Pe, Hid, N.eqb_refl. reflexivity.
+  - rewrite IH'; auto. apply orb_true_r.
+Qed.
+
 Theorem handle_from_proto_ok_iff ks :
   (exists h, handle_from_proto (Some ks) = Ok h) <-> (wf_keyset ks /\ Forall key_parses (ks_keys ks)).
 Proof.
@@ -848,14 +857,7 @@ Proof.
       apply known_status_spec in S. rewrite B, S in He. discriminate. }
     rewrite S.
     assert (Q : existsb eprim es = true).
-    { clear S Hes. induction F as [|k e keys es [pk' [-> [_ [_ [Pe _]]]]] _ IH']; [destruct P1|].
-      simpl. destruct P1 as [E|Hin].
-      - inversion E; subst pk'. rewrite Pe, P2, N.eqb_refl. reflexivity.
-      - rewrite IH'; auto.
-        + apply orb_true_r.
-        + intros C. inversion C.
-        + inversion K; assumption.
-        + inversion Hnd; assumption. }
+    { eapply existsb_eprim_of_primary; eauto. }
     rewrite Q. eauto.
 Qed.
 
